@@ -380,9 +380,24 @@ VALUE_POOL = [0.0, 1.0, -1.0, 2.0, -2.0, 0.5, -0.5, 4.0, 3.0, NAN]
 class P(Prop):
     id = "C02"
     design_ref = "DESIGN.md section 5, C02 and appendix A.1"
-    theorems = []
-    partial = []
-    open_statements = []
+    M = "TracklibVerif.Props.C02"
+    theorems = [
+        (M, "TV.C02.makeRPN_show", "T2: with makeRPN's real precedence table the right-to-left depth-0 scan returns the postfix form of every tree printed with the parentheses required by precedence and left associativity (and any redundant ones)"),
+        (M, "TV.C02.evalRPN_postfix", "T1: the stack machine on the postfix form of a tree computes the tree semantics and leaves exactly the temporaries #k.. it created, appended to the table; nothing else changes"),
+        (M, "TV.C02.operate_value", "T3a: without '=' operate returns the tree semantics at every observation and the track is left exactly as it was"),
+        (M, "TV.C02.operate_assign_new", "T3b: 'lhs=e' with a new name stores the value under lhs, returns nothing, changes nothing else"),
+        (M, "TV.C02.operate_assign_existing", "T3c: 'lhs=e' with an existing feature replaces that column only"),
+        (M, "TV.C02.operate_assign_existing_number", "T3c': 'lhs=<number>' overwrites an existing feature (fix 79feaf2)"),
+        (M, "TV.C02.operate_assign_coordinate_partial", "T3d: 'x=e' / 'y=e' / 'z=e' with a vector value writes the coordinate and leaves the feature table untouched (fix 3613032)"),
+        (M, "TV.C02.operate_show_value", "T3: composition - parse the printed statement with makeRPN's table, run the machine, purge: value = tree semantics, track unchanged"),
+        (M, "TV.C02.operator_objects_agree", "T4: operator objects applied directly return the tree semantics of the one-node expression (a.b, a.number, number.a, f{a})"),
+    ]
+    partial = ["operate_assign_coordinate_partial: proved for right-hand sides whose value is a vector; a pure number on the right of x=/y=/z= raises KeyError in the code (known finding coordinate-assigned-constant)"]
+    open_statements = [
+        "the character-level rewriting chain (preprocess) and character-level makeRPN are tied to the token-level theorems by the correspondence only (streams rpn/str/expr), not by a theorem",
+        "tree semantics = ordinary arithmetic: the node functions are the operator classes as coded (x/number is x*(1/number), Divider gives NaN on a zero denominator); their agreement with exact real arithmetic is sampled by the transfer check against the independent Python oracle, not proved",
+        "error propagation (when the tree semantics is an error the machine raises the same error) is exercised by the correspondence, not proved",
+    ]
     modelled = ("Track.__evaluate (replace chain, __specialOpChar, __convertReflexOperator, __unaryOp, f( -> f@( loops, #output prefix), "
                 "utils.makeRPN at character level, Track.__prime/__double_prime, Track.__evaluateRPN, Track.__applyOperation, the purge of "
                 "Track.operate(str), create/update/remove/getAnalyticalFeature and addListToAF as an insertion-ordered name->column table, "
